@@ -27,6 +27,11 @@ Report == /\ ~done /\ l > Len(T.ev)
           /\ PrintT(<<"VERDICT", tid, IF verdict = {} THEN "accept" ELSE "reject",
                       IF firstbad # 0 THEN firstbad ELSE l - 1, verdict>>)
           /\ done' = TRUE /\ UNCHANGED <<tid, l, verdict, firstbad, prev>>
-Next == TrPin \/ TrPinCool \/ TrStopped \/ TrCrash \/ Report
+\* at the end of an axial step the pin temperatures an assembly holds are
+\* still the ones computed for it in that step (whatever the other
+\* assemblies did afterwards)
+TrPinKeep == Live("PinKeep") /\ UNCHANGED prev /\
+             Note(IF Ev.same = 1 THEN {} ELSE {"PinTemperaturesStayWithTheirAssembly"})
+Next == TrPin \/ TrPinCool \/ TrPinKeep \/ TrStopped \/ TrCrash \/ Report
 Spec == Init /\ [][Next]_vars
 =============================================================================
